@@ -34,9 +34,36 @@ concat(axis=1), concat(axis=0, interleave_partitions), map_partitions
 (default, clear_divisions, enforce_metadata=False, row-dropping function),
 reset_index, sort_values, rolling / cumsum / shift / diff.
 
+Labels
+------
+``<step>:<variant>:<view>:<symptom>`` for findings that belong to the step that produced the stage.  When
+the partition count (or, for bound violations and exceptions, the known divisions) of some sub-expression
+changes when that sub-expression is optimised/lowered on its own, the finding belongs to that rewrite and is
+labelled ``optimize:<innermost such sub-expression>[-over-<partition-defining input>]:...`` whichever step
+happened to be last.  Exceptions are labelled ``<step>:<phase>:<ExcType@file:function>``.
+
 Calibration
 -----------
-* (see end of docstring list, filled in while calibrating on the unchanged tree)
+* DESIGN 6 #23 ("after df.loc[lo:hi] the divisions do not bound the partitions") is re-attributed: the
+  divisions of a loc result are truthful for the graph (``to_delayed``); what is wrong is ``.partitions[i]``
+  of a loc result (``Partitions`` pushed through ``LocSlice``).  Hence the two views.
+* false alarm corrected: ``dd.concat(axis=1)`` with an input of unknown divisions is documented to raise
+  ("If any of division is unknown, it raises ValueError"; a TypeError from ``Concat._divisions`` is the same
+  usage error) -> only generated when both inputs have known divisions.
+* false alarm corrected: ``ddf[ddf.index < v]`` is not dask API (the comparison gives a dask Index, getitem
+  treats it as column labels -> KeyError); the filter step uses ``ddf[ddf.index.to_series() < v]``.
+* generator restricted: filtering on the index is only generated for frames with known divisions.  After
+  ``reset_index`` (unknown divisions) ``r[r.index.to_series() >= v]`` raises AssertionError "Mismatched
+  divisions" / IndexingError: an optimiser defect about frames WITHOUT known divisions (C36/C43 subject),
+  reported to the lead, not judged here.
+* generator restricted: rolling/cum*/shift/diff/ffill steps are not applied over EMPTY partitions (their
+  seam behaviour, incl. the exceptions cummax raises there, is C46's subject); ``NotImplementedError``
+  ("Partition size is less than overlapping window size") skips the step.
+* ``set_index`` is only applied to columns without NA; given divisions always cover min..max of the column;
+  ``repartition(divisions=)`` keeps the outer divisions unless ``force=True``; ``loc[[labels]]`` only with
+  labels that exist (pandas raises for missing ones).
+* nothing is demanded of frames with unknown divisions (``sort=False``, ``reset_index``, ``sort_values``,
+  ``clear_divisions``): they are counted (``stages_unknown_divisions``).
 """
 from __future__ import annotations
 
@@ -55,7 +82,21 @@ ASSUMPTIONS = [
     "dask.dataframe is imported through the pyarrow import stub (pandas-backed strings)",
 ]
 BUDGET = {"quick": 60, "thorough": 540}
-FLOORS = {}
+FLOORS = {
+    "quick": {"evaluations": 1600, "distinct_nontrivial": 1150,
+              "counters": {"stages": 5500, "stages_known_divisions": 4800, "partitions_checked": 11500,
+                           "accessor_views": 3400, "known:from_pandas": 1300, "known:repartition": 1900,
+                           "known:loc": 250, "known:set_index": 150, "known:align": 100, "known:blockwise": 100,
+                           "known:filter": 50, "known:map_partitions": 40, "known:concat0": 30, "known:window": 60},
+              "sets": {"known_stage_variants": 40}, "max_skipped_fraction": 0.1},
+    "thorough": {"evaluations": 12000, "distinct_nontrivial": 9000,
+                 "counters": {"stages": 45000, "stages_known_divisions": 38000, "partitions_checked": 90000,
+                              "accessor_views": 25000, "known:from_pandas": 10000, "known:repartition": 14000,
+                              "known:loc": 2500, "known:set_index": 1500, "known:align": 1000,
+                              "known:blockwise": 1000, "known:filter": 500, "known:map_partitions": 400,
+                              "known:concat0": 300, "known:window": 600},
+                 "sets": {"known_stage_variants": 45}, "max_skipped_fraction": 0.1},
+}
 EXHAUSTIVE_SPACE = {
     "quick": "all 83 sorted int indexes of length 1..6 over a 3-value alphabet x from_pandas(npartitions 1..4, "
              "chunksize 1..6) x {base, repartition(npartitions=1..5)}",
@@ -70,7 +111,31 @@ LEVEL_NOTE = "trusts pandas ordering/min/max of index values and the sync schedu
 TECHNIQUE = ("runtime monitoring: divisions post-condition (npartitions, per-partition index bounds) on every stage of "
              "random construction pipelines, two partition views, complete small space + random")
 CASE_TIMEOUT = 120
-PENDING = {}
+PENDING = {
+    # --- one mechanism: Partitions._simplify_down pushes .partitions[i] through LocSlice/LocList/LocElement
+    "loc:slice:partitions-accessor:index-outside-division-interval":
+        "df.loc[lo:hi].partitions[i] returns input partition i (sliced) instead of output partition i",
+    "loc:partitions-accessor:KeyError@base.py:compute":
+        "df.loc[[labels]].partitions[i] applies the label list of output partition i to input partition i -> KeyError",
+    "loc:compute:KeyError@base.py:compute":
+        "df.loc[[labels]].loc[label] raises KeyError (same Partitions push-down through LocList, reached via LocElement._lower)",
+    # --- reported partition count differs from the graph's
+    "repartition:npartitions:more:numeric-or-datetime-index:graph:npartitions-vs-divisions":
+        "repartition(npartitions=n) above what the interpolated unique divisions allow: npartitions == n but len(divisions)-1 < n",
+    "set_index:npartitions:graph:npartitions-vs-divisions":
+        "set_index(col, npartitions=n): npartitions reports n although fewer quantile divisions exist",
+    "optimize:Projection-over-Concat[axis=1]:graph:partition-count-vs-divisions":
+        "column projection after concat(axis=1) drops whole input frames: partitioning (and for join='inner' the rows) change",
+    "optimize:Filter-over-SetIndex[quantiles]:graph:partition-count-vs-divisions":
+        "filter pushed below set_index changes the quantile divisions: graph partitions differ from the reported divisions",
+    "optimize:SetIndex[divisions]:reported-divisions-lost-on-lowering:exception-downstream":
+        "set_index(col, divisions=[lo, hi]) on a 1-partition frame reports the divisions but lowers to unknown divisions; loc/repartition then raise",
+    # --- exceptions on the construction paths
+    "set_index:construct:IndexError@dataframe/dask_expr/_collection.py:compute_current_divisions":
+        "set_index(col, sorted=True) on an empty frame raises IndexError",
+    "set_index:compute:AttributeError@_expr.py:__getattr__":
+        "rolling(...).agg().set_index(col): 'MapOverlap' object has no attribute 'required_columns'",
+}
 
 INDEX_KINDS = ("range", "sorted", "dups", "dups", "unsorted", "datetime", "strings", "float")
 STEP_KINDS = ("loc", "loc", "loc", "repartition", "repartition", "repartition", "set_index", "set_index",
@@ -89,7 +154,7 @@ def cases(tier, seed):
                     for k in ks:
                         yield {"space": "exhaustive", "letters": "".join(map(str, comb)), "vals": vt,
                                "how": how, "k": k}
-    n = 2600 if tier == "quick" else 40000
+    n = 2600 if tier == "quick" else 22000
     for _ in range(n):
         nsteps = rng.choice((1, 1, 2, 2, 3, 4))
         nrows = rng.choice((0, 1, 2, 3, 5, 8, 12, 20, 30, rng.randint(1, 40)))
@@ -498,7 +563,7 @@ def _observe(ctx, ddf, stage, state):
         ctx.count("unsupported_steps")
         raise _Skip("unsupported: %s" % e)
     except Exception as e:  # noqa: BLE001
-        ctx.exception(e, prefix="%s:divisions-attribute" % _where(ddf, stage, False), stage=stage, **state)
+        _exception(ctx, e, ddf, stage, "divisions-attribute", state)
         raise _Stop()
     try:
         gparts = list(dask.compute(*ddf.to_delayed(), scheduler="sync"))
@@ -506,8 +571,7 @@ def _observe(ctx, ddf, stage, state):
         ctx.count("unsupported_steps")
         raise _Skip("unsupported: %s" % e)
     except Exception as e:  # noqa: BLE001
-        ctx.exception(e, prefix="%s:compute" % _where(ddf, stage, False), stage=stage,
-                      divisions=[repr(d) for d in divs][:12], **state)
+        _exception(ctx, e, ddf, stage, "compute", state, divisions=[repr(d) for d in divs][:12])
         raise _Stop()
     if not all(isinstance(p, (pd.DataFrame, pd.Series)) for p in gparts):
         raise _Skip("not a frame")
@@ -517,6 +581,7 @@ def _observe(ctx, ddf, stage, state):
         ctx.op("unknown-after:" + stage.split(":")[0])
         return cur, gparts
     ctx.count("stages_known_divisions")
+    ctx.count("known:" + stage.split(":")[0])
     ctx.op("known-after:" + stage.split(":")[0])
     ctx.distinct("known_stage_variants", stage)
     if npart >= 2:
@@ -549,7 +614,7 @@ def _observe(ctx, ddf, stage, state):
     except NotImplementedError:
         return cur, gparts
     except Exception as e:  # noqa: BLE001
-        ctx.exception(e, prefix="%s:partitions-accessor" % stage, divisions=shown, **state)
+        ctx.exception(e, prefix="%s:partitions-accessor" % stage.split(":")[0], stage=stage, divisions=shown, **state)
         state["accessor_tainted"] = True
         return cur, gparts
     if v:
@@ -557,6 +622,20 @@ def _observe(ctx, ddf, stage, state):
         ctx.violation("%s:partitions-accessor:%s" % (stage, sym), v[1], divisions=shown, graph_parts=pshow, **state)
         state["accessor_tainted"] = True
     return cur, gparts
+
+
+def _exception(ctx, e, ddf, stage, phase, state, **detail):
+    """A dask exception while looking at a stage.  When some sub-expression reports known divisions that its
+    lowered form does not have, every downstream consumer fails in its own way: one mechanism, one label."""
+    from vf.core.ctx import through_shim
+
+    w = _where(ddf, stage, False)
+    if w != stage and not through_shim(e):
+        ctx.violation("%s:reported-divisions-lost-on-lowering:exception-downstream" % w,
+                      "%s: %s (stage %s, %s)" % (type(e).__name__, str(e)[:300], stage, phase), stage=stage,
+                      **dict(state, **detail))
+        return
+    ctx.exception(e, prefix="%s:%s" % (stage.split(":")[0], phase), stage=stage, **dict(state, **detail))
 
 
 _DEFINERS = {"SetIndex", "Concat", "Repartition", "Merge", "JoinRecursive", "FromPandas", "LocSlice", "LocList",
@@ -616,6 +695,11 @@ def _where(ddf, stage, by_count):
         if e is None:
             return stage
         top = _desc(e)
+        if by_count and top == "Projection":
+            # the only rewrite by which a projection changes a partition count: Concat(axis=1)._simplify_up
+            # drops the inputs none of whose columns are selected
+            if any(_desc(x) == "Concat[axis=1]" for x in e.walk()):
+                return "optimize:Projection-over-Concat[axis=1]"
         n = 0
         while type(e).__name__ not in _DEFINERS and hasattr(e, "frame") and n < 8:
             try:
